@@ -46,14 +46,14 @@ def subst_cond(cond_exprs, pre_data, reached):
     return [z3.substitute(c, *subs) for c in cond_exprs]
 
 
-def find_input(machine, layout, target, cond_exprs, pre_data, maxlen=10, max_paths=600, timeout_ms=20000):
+def find_input(machine, layout, target, cond_exprs, pre_data, maxlen=10, max_paths=600, timeout_ms=20000, ondemand=False, alloc=None):
     """returns list of bytes reaching `target` (resting there after the last byte) with data satisfying cond_exprs, or None"""
     snap = machine.m
     dist = distances(snap, target)
     if snap.start not in dist:
         return None
     solver = z3.Solver(); solver.set('timeout', timeout_ms)
-    start_data = layout.initial()
+    start_data = layout.initial(ondemand=ondemand)
     budget = [max_paths]
     for k in range(0, maxlen + 1):
         bs = [z3.BitVec(f'r_{i}', 8) for i in range(k)]
@@ -91,6 +91,10 @@ def find_input(machine, layout, target, cond_exprs, pre_data, maxlen=10, max_pat
             cs = subst_cond(cond_exprs, pre_data, dat)
             if cs is None:
                 continue
+            if alloc is not None:
+                # the reached allocation state of every on-demand string must be the one of the model
+                if any((dat.strs[n].alloc is True) != bool(v) for n, v in alloc.items() if n in dat.strs and isinstance(dat.strs[n].alloc, bool)):
+                    continue
             solver.push(); solver.add(*pc, *cs)
             r = solver.check()
             if r == z3.sat:
